@@ -165,6 +165,7 @@ variables
    obs = <<>>, wasreset = FALSE, path = <<>>, nothrow = FALSE,
    ledger = [ii \in Insts |-> [kk \in LedgerKeys |-> 0]],      \* entries minus exits per (machine, state)
    encnt = [ii \in Insts |-> [kk \in LedgerKeys |-> 0]],       \* number of entries per (machine, state): the datum the instrumented states carry
+   lastcfg = [ii \in Insts |-> [mm \in Machines |-> MD(mm).init]],   \* configuration of each machine when it was last exited (C08 oracle input)
    sawexc = [ii \in Insts |-> FALSE],
    stored = [ii \in Insts |-> [mm \in Machines |-> <<>>]],     \* payloads put into a queue / the pool, in order
    dispd = [ii \in Insts |-> [mm \in Machines |-> <<>>]],      \* payloads dispatched, in order
@@ -212,6 +213,11 @@ define {
   \* machines of the active tree of instance ii
   RECURSIVE ActiveTree(_, _)
   ActiveTree(ii, mm) == {mm} \cup UNION { IF IsSub(mm, active[ii][mm][rr]) THEN ActiveTree(ii, active[ii][mm][rr]) ELSE {} : rr \in 1..NReg(mm) }
+  \* backmp11 is_state_active<S>() asked on the root: active-recursive visitor, a machine that is not running reports nothing
+  RECURSIVE IsActiveM(_, _, _)
+  IsActiveM(ii, mm, sx) == running[ii][mm] /\ \E rr \in 1..NReg(mm) : LET st == active[ii][mm][rr] IN
+        st = sx \/ (IsSub(mm, st) /\ IsActiveM(ii, st, sx))
+  IsaVec(ii) == [k \in 1..Len(Def.allstates) |-> IsActiveM(ii, Def.root, Def.allstates[k])]
   FlagVec(ii, mm) == [k \in 1..Len(Def.flags) |-> FlagOr(ii, mm, Def.flags[k])]
   UseHist(mm, et) == HistKind(mm) = "always" \/ (HistKind(mm) = "shallow" /\ et \in HistEvents(mm))
   EntryActive(ii, mm, named, et) ==
@@ -322,6 +328,7 @@ X4:    if (exc) { return; } else { x_r := x_r + 1; };
     };
 X5: call Callback("ex", x_i, x_m, x_s, x_occ, -1);
 X6: if (~exc) {
+       lastcfg[x_i][x_s] := active[x_i][x_s];
        \* history_exit / history_impl::on_exit; back: the history policy decides about pending deferred events
        if (HistKind(x_s) # "none") { hist[x_i][x_s].last := active[x_i][x_s]; };
        if (IsB /\ ~UseHist(x_s, x_occ.t)) { dropped[x_i] := dropped[x_i] \cup QPayloads(dq[x_i][x_s]); dq[x_i][x_s] := <<>>; };
@@ -468,6 +475,9 @@ R1: if (r_row.g # <<>>) {
        call EvalG(r_i, r_m, r_row.g, r_occ);
 R2:    if (exc) { return; } else if (ret = 0) { ret := 2; goto R9; };
     };
+R2x: if (r_row.xp # "") {
+        obs := Append(obs, [k |-> "xptake", i |-> r_i, m |-> r_m, id |-> r_row.xp, e |-> r_occ.t, p |-> r_c.idx,
+                            r |-> \E rr \in 1..NReg(r_row.src) : active[r_i][r_row.src][rr] = r_row.xp, x |-> r_r]); };
 R3: if (r_occ.p \in defd[r_i]) { hdl[r_i] := Append(hdl[r_i], [p |-> r_occ.p, t |-> r_occ.t, m |-> r_m]); };
     obs := Append(obs, [k |-> "take", i |-> r_i, m |-> r_m, id |-> IF r_c.tab = "itab" THEN r_c.st ELSE r_c.tab, e |-> r_occ.t, p |-> r_c.idx, r |-> r_row.int, x |-> r_r]);
 R3x: if (r_row.int) {
@@ -639,7 +649,8 @@ T1: while (t_r <= NReg(Def.root)) {
 T2:    t_r := t_r + 1;
     };
 T3: call Callback("ex", t_i, Def.root, Def.root, StopOcc, -1);
-T4: if (HistKind(Def.root) # "none") { hist[t_i][Def.root].last := active[t_i][Def.root]; };
+T4: lastcfg[t_i][Def.root] := active[t_i][Def.root];
+    if (HistKind(Def.root) # "none") { hist[t_i][Def.root].last := active[t_i][Def.root]; };
     if (IsB /\ ~UseHist(Def.root, "stop")) { dropped[t_i] := dropped[t_i] \cup QPayloads(dq[t_i][Def.root]); dq[t_i][Def.root] := <<>>; };
     running[t_i][Def.root] := FALSE;
 T5: ret := 0;
@@ -662,6 +673,7 @@ M0: while (TRUE) {
           seqcnt := [ii \in Insts |-> [mm \in Machines |-> 0]];
           hist := [ii \in Insts |-> InitHist];
           exc := FALSE; ret := 0; cbn := 0; obs := <<>>;
+          lastcfg := [ii \in Insts |-> [mm \in Machines |-> MD(mm).init]];
           ledger := [ii \in Insts |-> [kk \in LedgerKeys |-> 0]]; encnt := [ii \in Insts |-> [kk \in LedgerKeys |-> 0]];
           sawexc := [ii \in Insts |-> FALSE];
           stored := [ii \in Insts |-> [mm \in Machines |-> <<>>]];
@@ -742,7 +754,7 @@ M0: while (TRUE) {
              active[cc.j] := active[cc.i]; running[cc.j] := running[cc.i]; processing[cc.j] := processing[cc.i];
              mq[cc.j] := [mm \in Machines |-> <<>>]; dq[cc.j] := [mm \in Machines |-> <<>>]; curseq[cc.j] := [mm \in Machines |-> 0];
              pool[cc.j] := [mm \in Machines |-> <<>>]; seqcnt[cc.j] := [mm \in Machines |-> 0]; hist[cc.j] := hist[cc.i];
-             ledger[cc.j] := ledger[cc.i]; encnt[cc.j] := [kk \in LedgerKeys |-> IF SerKey(kk) THEN encnt[cc.i][kk] ELSE 0];
+             ledger[cc.j] := ledger[cc.i]; encnt[cc.j] := [kk \in LedgerKeys |-> IF SerKey(kk) THEN encnt[cc.i][kk] ELSE 0]; lastcfg[cc.j] := lastcfg[cc.i];
              sawexc[cc.j] := sawexc[cc.i]; stored[cc.j] := [mm \in Machines |-> <<>>]; dispd[cc.j] := [mm \in Machines |-> <<>>];
              defd[cc.j] := {}; dropped[cc.j] := {}; defseq[cc.j] := <<>>; hdl[cc.j] := <<>>;
              used[cc.j] := TRUE;
@@ -756,7 +768,7 @@ M0: while (TRUE) {
              running[ii] := [mm \in Machines |-> FALSE]; processing[ii] := [mm \in Machines |-> FALSE];
              mq[ii] := [mm \in Machines |-> <<>>]; dq[ii] := [mm \in Machines |-> <<>>]; pool[ii] := [mm \in Machines |-> <<>>];
              active[ii] := [mm \in Machines |-> MD(mm).init]; hist[ii] := InitHist; curseq[ii] := [mm \in Machines |-> 0]; seqcnt[ii] := [mm \in Machines |-> 0];
-             ledger[ii] := [kk \in LedgerKeys |-> 0]; encnt[ii] := [kk \in LedgerKeys |-> 0]; used[ii] := FALSE;
+             ledger[ii] := [kk \in LedgerKeys |-> 0]; encnt[ii] := [kk \in LedgerKeys |-> 0]; used[ii] := FALSE; lastcfg[ii] := [mm \in Machines |-> MD(mm).init];
              ret := 0;
           };
        } or {
@@ -771,7 +783,7 @@ M0: while (TRUE) {
              active[cc.j] := active[cc.i]; running[cc.j] := running[cc.i]; processing[cc.j] := processing[cc.i];
              mq[cc.j] := mq[cc.i]; dq[cc.j] := dq[cc.i]; curseq[cc.j] := curseq[cc.i];      \* closures keep the object they were bound to
              pool[cc.j] := pool[cc.i]; seqcnt[cc.j] := seqcnt[cc.i]; hist[cc.j] := hist[cc.i];
-             ledger[cc.j] := ledger[cc.i]; encnt[cc.j] := encnt[cc.i]; sawexc[cc.j] := sawexc[cc.i]; stored[cc.j] := stored[cc.i]; dispd[cc.j] := dispd[cc.i];
+             ledger[cc.j] := ledger[cc.i]; encnt[cc.j] := encnt[cc.i]; sawexc[cc.j] := sawexc[cc.i]; lastcfg[cc.j] := lastcfg[cc.i]; stored[cc.j] := stored[cc.i]; dispd[cc.j] := dispd[cc.i];
              defd[cc.j] := defd[cc.i]; dropped[cc.j] := dropped[cc.i]; defseq[cc.j] := defseq[cc.i]; hdl[cc.j] := hdl[cc.i];
              used[cc.j] := TRUE;
              ret := 0;
@@ -788,6 +800,7 @@ M1:    if (Mode = "trace" /\ ~wasreset) {
                     THEN /\ DOMAIN CurLine.st = ActiveTree(lastcall.i, Def.root)
                          /\ \A mm \in ActiveTree(lastcall.i, Def.root) : CurLine.st[mm] = Ids(mm, active[lastcall.i][mm])
                          /\ CurLine.fl = FlagVec(lastcall.i, Def.root)
+                         /\ (CurLine.isa = <<>> \/ CurLine.isa = IsaVec(lastcall.i))
                          /\ \A mm \in ActiveTree(lastcall.i, Def.root) :
                                CurLine.dt[mm] = <<encnt[lastcall.i][OwnKey(mm)]>> \o [kk \in 1..Len(MD(mm).dorder) |-> encnt[lastcall.i][<<mm, MD(mm).dorder[kk]>>]]
                          /\ \A mm \in ActiveTree(lastcall.i, Def.root) :
